@@ -8,8 +8,10 @@
 #include "common.hpp"
 #include "engines.hpp"
 #include "mcmodel.hpp"
+#include "mpienv.hpp"
 
 #include "hep/mc.hpp"
+#include "hep/mc-mpi.hpp"
 
 #include <cmath>
 #include <deque>
@@ -196,6 +198,50 @@ static void cut_dist_cases(report& r)
         if (!(std::fabs(got - want) <= tol))
             r.violate(kind == 0 ? "biased/plain" : kind <= 2 ? "biased/vegas" : "biased/multi_channel", id, id + ": lattice estimate " + vf::dec(got) + ", integral " + vf::dec(want));
         if (!lin<T>::complaint().empty() && kind != 2) r.violate("weight-seen-by-integrand", id, id + ": " + lin<T>::complaint());
+        r.distinct(vf::hash_str(id));
+    }
+}
+
+// ---- the MPI integrators ----------------------------------------------------------------------------------
+// The same lattice shared out over P ranks (P does not divide the number of points): the reduced result of
+// every rank is the exact integral.
+template <typename T>
+static void mpi_cases(report& r)
+{
+    std::string const tn = vf::type_name<T>();
+    for (int kind = 0; kind != 3; ++kind)       // mpi_plain, mpi_vegas (grid [0,1/8,1/2,1]), mpi_multi_channel (3 channels)
+    for (int world : {2, 3, 5})
+    for (auto const& cs : integrands(1))
+    {
+        std::string const id = tn + " plain-mpi kind=" + std::to_string(kind) + " world=" + std::to_string(world) + " f=" + show(cs);
+        if (!r.want(id)) continue;
+        r.eval();
+        lin<T> fn{cs};
+        lin<T>::complaint().clear();
+        vf::pl_map<T> map; map.split = {T(0.25), T(0.5), T(0.75)}; map.dims = 1;
+        hep::vegas_pdf<T> pdf(1, 3);
+        pdf.set_bin_left(0, 1, T(0.125)); pdf.set_bin_left(0, 2, T(0.5));
+        // 2 iterations of one full lattice each (mpi_vegas adapts after the first: only the first is judged for it)
+        sz const n = kind == 2 ? vf::fill_lattice({12, 8}) : vf::fill_lattice({kind == 1 ? sz(21) : sz(14)});
+        std::vector<L> got(world, 0);
+        vf::mpi_env env(world);
+        auto out = env.run([&](int rank) {
+            vf::script_engine gen;
+            if (kind == 0) got[rank] = hep::mpi_plain(MPI_COMM_WORLD, hep::make_integrand<T>(fn, 1), std::vector<sz>{n}, hep::make_plain_chkpt<T, vf::script_engine>(gen), vf::never_stop_mpi()).results().at(0).value();
+            else if (kind == 1) got[rank] = hep::mpi_vegas(MPI_COMM_WORLD, hep::make_integrand<T>(fn, 1), std::vector<sz>{n}, hep::make_vegas_chkpt<T, vf::script_engine>(pdf, T(0.75), gen), vf::never_stop_mpi()).results().at(0).value();
+            else got[rank] = hep::mpi_multi_channel(MPI_COMM_WORLD, hep::make_multi_channel_integrand<T>(fn, 1, map, 1, 3), std::vector<sz>{n},
+                hep::make_multi_channel_chkpt<T, vf::script_engine>(std::vector<T>{T(2), T(1), T(5)}, T(), T(0.5), gen), vf::never_stop_mpi()).results().at(0).value();
+        });
+        if (!out.ok) { r.violate("mpi-run-failed", id, id + ": " + out.what); continue; }
+        L const want = exact_integral<T>(cs);
+        L const tol = 64 * 12 * std::numeric_limits<T>::epsilon() * magnitude<T>(cs) * 4;
+        for (int k = 0; k != world; ++k)
+            if (!(std::fabs(got[k] - want) <= tol))
+            {
+                r.violate(kind == 0 ? "biased/plain" : kind == 1 ? "biased/vegas" : "biased/multi_channel", id, id + ": rank " + std::to_string(k) + " reports the lattice estimate " + vf::dec(got[k])
+                    + ", integral " + vf::dec(want));
+                break;
+            }
         r.distinct(vf::hash_str(id));
     }
 }
@@ -653,6 +699,7 @@ static void for_type(report& r)
     bool const th = r.a().thorough();
     if (r.want_prefix(tn + " plain")) plain_cases<T>(r);
     if (r.want_prefix(tn + " plain-cut")) cut_dist_cases<T>(r);
+    if (r.want_prefix(tn + " plain-mpi")) mpi_cases<T>(r);
     if (r.want_prefix(tn + " vegas")) vegas_cases<T>(r, th);
     if (r.want_prefix(tn + " mc C") || r.want_prefix(tn + " mc8")) mc_cases<T>(r, th);
     if (r.want_prefix(tn + " mcadapt")) mc_adapted<T>(r, th);
